@@ -183,6 +183,14 @@ def nats(l):
     return q.lst([q.nat(x) for x in l])
 
 
+def sstr(x):
+    """a byte string as a Coq term: printable ASCII as a literal (double quote doubled), anything else as hex"""
+    b = bytes(x)
+    if all(32 <= c < 127 for c in b):
+        return '"%s"%%string' % b.decode("ascii").replace('"', '""')
+    return '(hx "%s")' % b.hex()
+
+
 def t_status(s):
     return STATUS.get(s, "Unknown") if s is not None else None
 
@@ -191,12 +199,12 @@ def t_event(e):
     return "(E %s %s %s %s %s %s %s %s %s)" % (
         q.option(e["id"], q.nat), q.option(e["route"], q.nat), q.option(t_status(e["st"])),
         q.option(e["tags"], nats), q.option(e["fn"], q.nat),
-        q.option(e["fb"], lambda b: q.string(bytes(b))), q.boolean(e["eof"]),
+        q.option(e["fb"], lambda b: sstr(bytes(b))), q.boolean(e["eof"]),
         q.option(e["mime"], q.nat), q.option(e["ts"], q.nat))
 
 
 def t_details(ds):
-    return q.lst([q.pair(q.nat(n), q.pair(q.nat(ct), q.string(bytes(b)))) for n, ct, b in ds])
+    return q.lst([q.pair(q.nat(n), q.pair(q.nat(ct), sstr(bytes(b)))) for n, ct, b in ds])
 
 
 def t_rec(d):
